@@ -141,6 +141,29 @@ example : (run Skeleton.current init deadlockRun).map
     (fun s => (step Skeleton.current s (.reqDeliver .B 0)).isSome && !stuck Skeleton.current s) = some true := by
   decide
 
+/-- the source with something in the request loop's body that can wait between two reads (an admission
+    limit on handler goroutines, a lock, a channel): modelled as the strictest such limit -/
+def skLimited : Skeleton := { Skeleton.current with reqLoopBlocksOnlyOnRead := false }
+
+/-- With an admission limit in the request loop the same alternating chain deadlocks although every
+    handler has a goroutine of its own: B's loop does not take the second request while its first
+    handler is still running — and that handler waits for exactly that request's result. -/
+theorem C02_needs_nonblocking_loop :
+    (run skLimited init deadlockRun).map
+      (fun s => decide (s.reqLoopBusy .B = some 0 ∧ (s.reqs .B).length = 1) &&
+                (step skLimited s (.reqDeliver .B 0)).isNone && stuck skLimited s) = some true := by
+  decide
+
+/-- …and a single stalled handler keeps an INDEPENDENT call from being served. -/
+theorem C02_limited_loop_stalled_handler_blocks_others :
+    (run skLimited init [.callStart .A 1 1, .callWrite .A 0, .reqDeliver .B 0, .handlerEnter .B 0, .handlerStall .B 0,
+                         .callStart .A 2 2, .callWrite .A 1]).map
+      (fun s => (step skLimited s (.reqDeliver .B 0)).isNone) = some true ∧
+    (run Skeleton.current init [.callStart .A 1 1, .callWrite .A 0, .reqDeliver .B 0, .handlerEnter .B 0, .handlerStall .B 0,
+                         .callStart .A 2 2, .callWrite .A 1]).map
+      (fun s => (step Skeleton.current s (.reqDeliver .B 0)).isSome) = some true := by
+  decide
+
 /-- the source with `go` removed from `go responseResolver.Publish(…)` -/
 def skSyncPublish : Skeleton := { Skeleton.current with respPublishAsync := false }
 
@@ -185,3 +208,5 @@ end Panrpc.Sys
 #print axioms Panrpc.Sys.C02_sync_publish_makes_loop_wait
 #print axioms Panrpc.Sys.C02_sync_publish_only_delays
 #print axioms Panrpc.Sys.C02_no_lock_across_closure
+#print axioms Panrpc.Sys.C02_needs_nonblocking_loop
+#print axioms Panrpc.Sys.C02_limited_loop_stalled_handler_blocks_others
